@@ -81,6 +81,17 @@ func c3993Check(c *fw.Ctx, fam string, s string, cs, full bool) {
 	o := req.call()
 	if !wellFormed(c, req.entryName(), inner, &o) {
 		c.Cover("outcome", "rejected")
+		if o.panic == nil && o.err != nil {
+			ok := false
+			if full {
+				ok = asciiOnly(s)
+			} else {
+				ok = allIn(s, refC39)
+			}
+			if ok {
+				c.Violation(fam+"/rejected", "representable text rejected: "+o.err.Error(), inner, "")
+			}
+		}
 		return
 	}
 	opt := fmt.Sprintf("cs=%v,full=%v", cs, full)
